@@ -1,7 +1,11 @@
 """./check run <id> [--tier quick|thorough] | replay <file> | selftest <what> | list"""
 import argparse
+import faulthandler
 import os
+import signal
 import sys
+
+faulthandler.register(signal.SIGUSR1, all_threads=True)
 
 sys.path.insert(0, os.path.dirname(os.path.dirname(os.path.abspath(__file__))))
 
